@@ -2,6 +2,7 @@ package main
 
 import (
 	"fmt"
+	"go/token"
 	"go/types"
 	"sort"
 	"strings"
@@ -13,13 +14,13 @@ func init() { register("C03", "other", runC03) }
 
 // language classes for the pre-image of the claim hash; "any" = arbitrary bytes (may contain the separator)
 const (
-	langDigits = "digits"   // [0-9]+
-	langInt    = "int"      // -?[0-9]+ | <nil>
-	langBool   = "bool"     // true|false
-	langAddr   = "address"  // fixed-shape external address (validated), no '/'
-	langBech   = "bech32"   // bech32 string, no '/'
-	langHex    = "hex"      // [0-9a-fA-F]*
-	langList   = "list"     // [e e e] of separator-free elements
+	langDigits = "digits"  // [0-9]+
+	langInt    = "int"     // -?[0-9]+ | <nil>
+	langBool   = "bool"    // true|false
+	langAddr   = "address" // fixed-shape external address (validated), no '/'
+	langBech   = "bech32"  // bech32 string, no '/'
+	langHex    = "hex"     // [0-9a-fA-F]*
+	langList   = "list"    // [e e e] of separator-free elements
 	langAny    = "any"
 )
 
@@ -144,42 +145,21 @@ func runC03(e *Engine, r *Report, tier string) {
 			r.Fail("R1", name, "", "UNRESOLVED-ANCHOR: struct or ClaimHash not found")
 			continue
 		}
-		// locate Sprintf feeding the hash
-		var sp *ssa.Call
-		allCalls(hf, func(c ssa.CallInstruction) {
-			if callName(c) == "Sprintf" {
-				if cv, ok := c.(*ssa.Call); ok {
-					sp = cv
-				}
-			}
-		})
-		if sp == nil {
-			r.Undecided("R1", name, e.Pos(hf.Pos()), "ClaimHash does not build its pre-image with fmt.Sprintf: field coverage cannot be decided")
+		// the pre-image: a Sprintf, or any other way of building the hashed string (concatenation, strings.Join, strconv)
+		format, argVals, okPre := e.preimageOf(hf)
+		if !okPre {
+			r.Undecided("R1", name, e.Pos(hf.Pos()), "ClaimHash does not build its pre-image from a format, a concatenation or a join of renderings: field coverage cannot be decided")
 			continue
 		}
-		format, _ := constString(sp.Common().Args[0])
 		lossy := map[string]string{}
-		// variadic args: stores into the [n]interface{} array
 		type argInfo struct {
 			field string
 			typ   types.Type
 		}
 		var args []argInfo
-		if sl, ok := sp.Common().Args[1].(*ssa.Slice); ok {
-			if arr, ok := sl.X.(*ssa.Alloc); ok {
-				idx := map[int64]ssa.Value{}
-				for _, ref := range *arr.Referrers() {
-					if ia, ok := ref.(*ssa.IndexAddr); ok {
-						k, _ := constInt(ia.Index)
-						for _, r2 := range *ia.Referrers() {
-							if s2, ok := r2.(*ssa.Store); ok {
-								idx[k] = s2.Val
-							}
-						}
-					}
-				}
-				for i := int64(0); i < int64(len(idx)); i++ {
-					v := idx[i]
+		{
+			{
+				for _, v := range argVals {
 					ai := argInfo{}
 					e.Slice(v, SliceOpts{MaxDepth: 6, ThroughCalls: true}, func(x ssa.Value) Verdict {
 						if n, stt, ok := fieldName(x); ok && namedTypeName(stt) == namedTypeName(named) {
@@ -515,4 +495,136 @@ func lossyCallOnPath(v ssa.Value, depth int, seen map[ssa.Value]bool) string {
 		return lossyCallOnPath(x.X, depth+1, seen)
 	}
 	return ""
+}
+
+// preimageOf reads how ClaimHash builds the string it hashes, as a printf-like format plus the rendered values: a
+// fmt.Sprintf call, string concatenation, strings.Join over a slice literal, strconv renderings — so that a claim hash
+// written in another idiom is decided like the Sprintf form.
+func (e *Engine) preimageOf(hf *ssa.Function) (string, []ssa.Value, bool) {
+	// the hashed value: argument of the digest call (tmhash.Sum, sha256.Sum256, ...)
+	var hashed ssa.Value
+	allCalls(hf, func(c ssa.CallInstruction) {
+		n := callName(c)
+		if (n == "Sum" || n == "Sum256" || n == "Keccak256" || n == "Sum512") && len(c.Common().Args) >= 1 && hashed == nil {
+			hashed = c.Common().Args[0]
+		}
+	})
+	if hashed == nil {
+		return "", nil, false
+	}
+	var args []ssa.Value
+	ok := true
+	nverb := 0
+	esc := func(s string) string { return strings.ReplaceAll(s, "%", "%%") }
+	sliceElems := func(v ssa.Value) ([]ssa.Value, bool) {
+		sl, isSl := v.(*ssa.Slice)
+		if !isSl {
+			return nil, false
+		}
+		arr, isA := sl.X.(*ssa.Alloc)
+		if !isA {
+			return nil, false
+		}
+		idx := map[int64]ssa.Value{}
+		for _, ref := range *arr.Referrers() {
+			if ia, ok := ref.(*ssa.IndexAddr); ok {
+				k, isK := constInt(ia.Index)
+				if !isK {
+					return nil, false
+				}
+				for _, r2 := range *ia.Referrers() {
+					if s2, ok := r2.(*ssa.Store); ok {
+						idx[k] = s2.Val
+					}
+				}
+			}
+		}
+		out := make([]ssa.Value, 0, len(idx))
+		for i := int64(0); i < int64(len(idx)); i++ {
+			v, ok := idx[i]
+			if !ok {
+				return nil, false
+			}
+			out = append(out, v)
+		}
+		return out, true
+	}
+	var flat func(v ssa.Value, depth int) string
+	flat = func(v ssa.Value, depth int) string {
+		if depth > 12 {
+			ok = false
+			return ""
+		}
+		v = stripConv(v)
+		if s, isS := constString(v); isS {
+			return esc(s)
+		}
+		switch x := v.(type) {
+		case *ssa.BinOp:
+			if x.Op == token.ADD {
+				return flat(x.X, depth+1) + flat(x.Y, depth+1)
+			}
+		case *ssa.Call:
+			switch callName(x) {
+			case "Sprintf":
+				f, isF := constString(x.Common().Args[0])
+				if !isF {
+					ok = false
+					return ""
+				}
+				if len(x.Common().Args) > 1 {
+					el, isE := sliceElems(x.Common().Args[1])
+					if !isE {
+						if c, isC := x.Common().Args[1].(*ssa.Const); !isC || !c.IsNil() {
+							ok = false
+							return ""
+						}
+					}
+					for _, a := range el {
+						if mi, isMI := a.(*ssa.MakeInterface); isMI {
+							a = mi.X
+						}
+						args = append(args, a)
+						nverb++
+					}
+				}
+				return f
+			case "Join":
+				a := x.Common().Args
+				if len(a) == 2 {
+					sep, isSep := constString(a[1])
+					el, isE := sliceElems(a[0])
+					if isSep && isE {
+						out := ""
+						for i, ev := range el {
+							if i > 0 {
+								out += esc(sep)
+							}
+							out += flat(ev, depth+1)
+						}
+						return out
+					}
+				}
+				ok = false
+				return ""
+			case "FormatUint", "FormatInt", "Itoa":
+				args = append(args, x.Common().Args[0])
+				nverb++
+				return "%d"
+			case "FormatBool":
+				args = append(args, x.Common().Args[0])
+				nverb++
+				return "%t"
+			}
+		}
+		// any other string value: rendered as it is
+		args = append(args, v)
+		nverb++
+		return "%s"
+	}
+	format := flat(hashed, 0)
+	if !ok || nverb == 0 {
+		return "", nil, false
+	}
+	return format, args, true
 }
